@@ -45,7 +45,10 @@
         C13_keepalive_is_urgent (timers fire on time, zero API latency); C13_keepalive_margin.
         lifetime <= 1: C13_renew_before_expiry_refuted / _partial (O1).
    10 and removes it on graceful exit
-        full: C13_record_withdrawn_on_exit, C13_takeover_after_exit.  "Stays removed":
+        full: C13_record_withdrawn_on_exit, C13_takeover_after_exit; for keepalive() as a task with PATCHes IN FLIGHT
+        (Model/PeerKa.v; cancellation at every await, apply-then-fail): C13_keepalive_ended_means_withdrawn,
+        C13_keepalive_exit_issues_withdrawal, C13_keepalive_cancel_enabled, C13_keepalive_withdrawal_completes
+        (tied by T:kacancel on the real coroutine).  "Stays removed":
         C13_withdrawn_stays_refuted (F1302) / C13_exiting_record_only_by_wake (exactly that step) +
         C13_withdrawn_stays_partial.
    11 expired records of others are cleaned up
@@ -57,7 +60,7 @@
    the JSON-level theorems.  One wall clock; PATCH latency only in D:event. *)
 From Coq Require Import ZArith List String Bool.
 From KV Require Import Base.Json Model.Peering Model.PeerNet Proofs.Peering Proofs.PeerNet Proofs.PeerSched Proofs.PeerLive
-  Proofs.PeerRefine Proofs.PeerExamples.
+  Proofs.PeerRefine Proofs.PeerExamples Model.PeerKa Proofs.PeerKa.
 From KV Require Model.Ensemble Proofs.PeerCompose.
 Import ListNotations.
 Open Scope string_scope.
@@ -479,3 +482,42 @@ Example C13_operator_pause_nonvacuous : exists s,
   Ensemble.peerings (Ensemble.te (Ensemble.trun_adjust [PeerCompose.ex_ins])) <> [] /\
   Ensemble.paused_on false PeerCompose.ex_ins [(PeerCompose.ex_res, None)] (Ensemble.trun_adjust [PeerCompose.ex_ins]) = true.
 Proof. exact PeerCompose.compose_nonvacuous. Qed.
+
+(* ====================== keepalive() with requests in flight (Model/PeerKa.v) ====================== *)
+
+(* clause 10 over every await point: however keepalive() ended — cancelled before its first step, while the first
+   (or a later) PATCH is in flight, un-applied or applied-but-unanswered, during the sleep, during the shielded
+   withdrawal; or by a touch that raised before/after the server applied it — once nothing is in flight any more and
+   no withdrawal request has itself failed, the server holds NO record of this identity *)
+Theorem C13_keepalive_ended_means_withdrawn : forall pos tr s, krun pos k0 tr = Some s ->
+  k_ph s = KEnd -> k_req s = None -> k_wfail s = false -> k_rec s = false.
+Proof. exact ended_means_withdrawn. Qed.
+Print Assumptions C13_keepalive_ended_means_withdrawn.
+
+(* the withdrawal is issued at once, from every state in which the task has ever run *)
+Theorem C13_keepalive_exit_issues_withdrawal : forall pos tr s l s', krun pos k0 tr = Some s ->
+  (l = KCancel \/ l = KFail) -> (k_ph s = KTouch \/ k_ph s = KSleep) -> kstep pos s l = Some s' ->
+  k_ph s' = KFinal /\ k_req s' = Some (true, false).
+Proof. exact exit_issues_withdrawal. Qed.
+Print Assumptions C13_keepalive_exit_issues_withdrawal.
+
+(* the quantification is not empty: a cancellation is possible in every state before the end ... *)
+Theorem C13_keepalive_cancel_enabled : forall pos tr s, krun pos k0 tr = Some s -> k_ph s <> KEnd ->
+  exists s', kstep pos s KCancel = Some s'.
+Proof. exact cancel_enabled. Qed.
+Print Assumptions C13_keepalive_cancel_enabled.
+
+(* ... and a withdrawal in flight can always be applied and answered, after which the record is gone *)
+Theorem C13_keepalive_withdrawal_completes : forall pos tr s a, krun pos k0 tr = Some s -> k_req s = Some (true, a) ->
+  exists tr' s', krun pos s tr' = Some s' /\ k_ph s' = KEnd /\ k_req s' = None /\ k_rec s' = false /\ k_wfail s' = k_wfail s.
+Proof. exact withdrawal_completes. Qed.
+Print Assumptions C13_keepalive_withdrawal_completes.
+
+Example C13_keepalive_cancelled_during_first_touch :
+  exists s, krun true k0 [KCall; KApply; KCancel; KCallW; KApply; KReturn; KDone] = Some s /\
+            k_ph s = KEnd /\ k_req s = None /\ k_wfail s = false /\ k_rec s = false.
+Proof. exact cancelled_during_first_touch. Qed.
+
+Example C13_keepalive_first_touch_applied_unanswered :
+  exists s, krun true k0 [KCall; KApply] = Some s /\ k_ph s = KTouch /\ k_rec s = true /\ k_req s = Some (false, true).
+Proof. exact first_touch_applied_unanswered. Qed.
